@@ -5,7 +5,7 @@ journals, against the extracted Coq model (Model/Period.v: the transcribed date_
 machine and interval_posts::flush).
 Oracle: adjacency, lengths, alignment (python datetime/calendar arithmetic, written from the
 property text) and the sum identity against ledger's own plain `reg --begin --end` rows."""
-import calendar, datetime, re
+import calendar, datetime, re, time
 from concurrent.futures import ThreadPoolExecutor
 from fractions import Fraction as F
 import lib
@@ -669,6 +669,7 @@ def cases_for(ctx, rng, n_reg, n_period, exhaustive):
 
 
 def run(ctx, n_override=None):
+    t_run = time.time()
     rng = ctx.rng
     res = lib.Result()
     res.rule = ('period expressions (named forms, `every N units` with N in 1..12, `every unit`; from/since and to/until '
@@ -678,8 +679,8 @@ def run(ctx, n_override=None):
                 '`ledger period` output and `reg --period` '
                 'rows compared with the model; non-trivial = at least two intervals reported; distinct by expression, '
                 'journal and options')
-    n_reg = n_override or ctx.scale(1800, 20000)
-    n_period = ctx.scale(500, 5000)
+    n_reg = n_override or ctx.scale(1800, 12000)
+    n_period = ctx.scale(500, 3000)
     n_j = ctx.scale(30, 200)
     exhaustive = ctx.tier == 'thorough'
     journals = []
@@ -727,6 +728,7 @@ def run(ctx, n_override=None):
         plain_vals = list(ex.map(lambda k: run_plain({'from': k[1], 'to': k[2], 'fmt': journals_by_idx[k[0]]['fmt']},
                                                      journals_by_idx[k[0]]['path']), plain_keys))
         impl_period = list(ex.map(run_period, periods))
+    lib.log('C13: implementation runs done %.0fs' % (time.time() - t_run))
     plain = dict(zip(plain_keys, plain_vals))
     lines = []
     for i, (c, jn) in enumerate(jobs):
@@ -734,10 +736,12 @@ def run(ctx, n_override=None):
     for i, c in enumerate(periods):
         lines.append(model_period_line('p%d' % i, c))
     out = lib.run_model('C13', lines)
+    lib.log('C13: model done %.0fs' % (time.time() - t_run))
     for i, (c, jn) in enumerate(jobs):
         check_reg(res, c, jn, impl_reg[i], plain[(jn['idx'], c['from'], c['to'])], parse_model_rows(out[i]))
     for i, c in enumerate(periods):
         check_period(res, c, impl_period[i], out[len(jobs) + i])
+    lib.log('C13: checks done %.0fs' % (time.time() - t_run))
     calendar_spot(ctx, rng, res)
     return res
 
